@@ -74,3 +74,26 @@ def register_reporting_shapes(reg):
     reg.shapes['Options'].fields.update({'verbosity': 'Int', 'warnings_as_errors': 'Bool', 'pdb': 'Bool',
                                          'sourcepath': 'Seq[Obj[Path]]'})
     reg.shapes['Documentable'].fields.update({'docstring': 'Opt[Str]', 'source_path': 'Opt[Obj[Path]]'})
+
+
+OPKINDS = ['Or', 'And', 'Not', 'BitOr', 'BitXor', 'BitAnd', 'LShift', 'RShift', 'Add', 'Sub', 'Mult', 'Div', 'Mod',
+           'FloorDiv', 'MatMult', 'UAdd', 'USub', 'Invert', 'Pow']
+
+
+def register_pyval_shapes(reg):
+    reg.enum_defs = dict(getattr(reg, 'enum_defs', {}), OpKind=OPKINDS)
+    # the part of the ast class hierarchy the colorizer distinguishes
+    reg.shape('AST', {})
+    reg.shape('expr', {'op': 'Enum[OpKind]', 'right': 'RefN[expr]', 'left': 'RefN[expr]'}, bases=('AST',))
+    reg.shape('keyword', {}, bases=('AST',))
+    reg.shape('comprehension', {}, bases=('AST',))
+    reg.shape('stmt', {}, bases=('AST',))
+    for k in ('UnaryOp', 'BinOp', 'BoolOp'):
+        reg.shape(k, {}, bases=('expr',))
+    reg.shape('OtherExpr', {}, bases=('expr',))
+    reg.shape('_MarkedColorizerState', {'length': 'Int', 'charpos': 'Int', 'lineno': 'Int', 'linebreakok': 'Bool'})
+    reg.shape('_ColorizerState', {'result': 'Seq[Obj[DocNode]]', 'charpos': 'Int', 'lineno': 'Int', 'linebreakok': 'Bool',
+                                  'warnings': 'Seq[Str]'})
+    reg.shape('PyvalColorizer', {'explicit_precedence': 'Map[Ref[expr],Int]', 'linebreakok': 'Bool'})
+    reg.shape('_OperatorDelimiter', {'discard': 'Bool', 'colorizer': 'Ref[PyvalColorizer]', 'state': 'Ref[_ColorizerState]',
+                                     'marked': 'Ref[_MarkedColorizerState]'})
